@@ -1,0 +1,38 @@
+//go:build verif
+
+package coordinator
+
+import (
+	"github.com/openGemini/openGemini/lib/util/lifted/vm/protoparser/influx"
+)
+
+// VerifRouteBatch runs one write batch through the routing stage of PointsWriter.writePointRows
+// (checkDBRP, then routeAndMapOriginRows with a fresh ingestion context and write helper; no stream
+// tasks, nothing is sent to a store) and reports, per row of the batch, the id of the shard the row
+// was mapped to (0: the row is in no shard's list) together with the three results of
+// routeAndMapOriginRows. dbErr is the error of checkDBRP.
+func VerifRouteBatch(w *PointsWriter, database, retentionPolicy string, rows []influx.Row) (shardIDs []uint64, partialErr error, dropped int, err error, dbErr error) {
+	ctx := getInjestionCtx()
+	defer putInjestionCtx(ctx)
+	ctx.writeHelper = newWriteHelper(w)
+	if dbErr = ctx.checkDBRP(database, retentionPolicy, w); dbErr != nil {
+		return
+	}
+	if retentionPolicy == "" {
+		retentionPolicy = ctx.db.DefaultRetentionPolicy
+	}
+	partialErr, dropped, err = w.routeAndMapOriginRows(database, retentionPolicy, rows, ctx)
+	shardIDs = make([]uint64, len(rows))
+	index := make(map[*influx.Row]int, len(rows))
+	for i := range rows {
+		index[&rows[i]] = i
+	}
+	for _, sr := range ctx.getShardRowMap() {
+		for _, r := range sr.rows {
+			if i, ok := index[r]; ok {
+				shardIDs[i] = sr.shardInfo.ID
+			}
+		}
+	}
+	return
+}
